@@ -1,5 +1,10 @@
 package main
 
+import (
+	"fmt"
+	"strings"
+)
+
 func c15family(thorough bool, add func(cfg *Config, bound int, maxExec int64, oracles ...string)) {
 	type sc struct {
 		fail, limit int
@@ -120,4 +125,119 @@ func c04family(thorough bool, add func(cfg *Config, bound int, maxExec int64, or
 			})
 		}
 	}
+}
+
+// depVariants: the spellings of one dependency set in a `depends` list — every order, and every order
+// with one entry repeated at any position (canonical order first).
+func depVariants(d []string) [][]string {
+	var out [][]string
+	seen := map[string]bool{}
+	var rec func(cur []string, maxLen int)
+	rec = func(cur []string, maxLen int) {
+		if len(cur) >= len(d) {
+			cover := map[string]bool{}
+			for _, x := range cur {
+				cover[x] = true
+			}
+			if len(cover) == len(d) {
+				k := strings.Join(cur, ",")
+				if !seen[k] {
+					seen[k] = true
+					out = append(out, append([]string(nil), cur...))
+				}
+			}
+		}
+		if len(cur) == maxLen {
+			return
+		}
+		for _, x := range d {
+			rec(append(cur, x), maxLen)
+		}
+	}
+	rec(nil, len(d))
+	rec(nil, len(d)+1)
+	return out
+}
+
+// durFamily: programs whose steps take time (an attempt lasts 2.5 polling pauses of the scheduling loop, so
+// that "a dependency is still executing when the loop scans" is reachable without spending a preemption),
+// with met preconditions, and with every spelling of each dependency list (order, repeated entries).
+func durFamily(thorough bool, add func(cfg *Config, bound int, maxExec int64, oracles ...string), sub string, maxActives []int) string {
+	type sc struct {
+		fail, dur  int
+		met, unmet bool
+	}
+	alphabet := []sc{{}, {dur: 250}, {fail: -1}, {dur: 250, met: true}}
+	if thorough {
+		alphabet = append(alphabet, sc{fail: -1, dur: 250}, sc{unmet: true})
+	}
+	n := 3
+	for _, adj := range dags(n) {
+		deps := make([][]string, n)
+		hasDependents := make([]bool, n)
+		for i := 0; i < n; i++ {
+			for j := 0; j < n; j++ {
+				if adj[i]>>uint(j)&1 == 1 {
+					deps[i] = append(deps[i], stepNames[j])
+					hasDependents[j] = true
+				}
+			}
+		}
+		// spellings: canonical everywhere, or exactly one step with a non-canonical spelling
+		type spelling [][]string
+		spell := []spelling{{deps[0], deps[1], deps[2]}}
+		for i := 0; i < n; i++ {
+			if len(deps[i]) == 0 {
+				continue
+			}
+			for _, v := range depVariants(deps[i])[1:] {
+				s := spelling{deps[0], deps[1], deps[2]}
+				s[i] = v
+				spell = append(spell, s)
+			}
+		}
+		total := 1
+		for i := 0; i < n; i++ {
+			total *= len(alphabet)
+		}
+		for code := 0; code < total; code++ {
+			idx := make([]int, n)
+			nDur := 0
+			for c, i := code, 0; i < n; i++ {
+				idx[i] = c % len(alphabet)
+				c /= len(alphabet)
+				if alphabet[idx[i]].dur > 0 {
+					nDur++
+				}
+			}
+			for si, sp := range spell {
+				if si > 0 && nDur == 0 {
+					continue // a spelling can only matter when some step is still executing at a scan
+				}
+				for _, ma := range maxActives {
+					// continueOn.failure on every failing step with dependents, or on none
+					for cof := 0; cof < 2; cof++ {
+						cfg := &Config{MaxActive: ma}
+						any := false
+						for i := 0; i < n; i++ {
+							a := alphabet[idx[i]]
+							s := StepCfg{Name: stepNames[i], Depends: sp[i], Fail: a.fail, DurMs: a.dur, Met: a.met, Unmet: a.unmet}
+							if cof == 1 && (a.fail != 0 || a.unmet) && hasDependents[i] {
+								s.CoF, s.CoS = a.fail != 0, a.unmet
+								any = true
+							}
+							cfg.Steps = append(cfg.Steps, s)
+						}
+						if cof == 1 && !any {
+							continue
+						}
+						add(cfg, 0, 2000000, sub)
+					}
+				}
+			}
+		}
+	}
+	return "durations and spellings: all acyclic dependency relations on 3 labelled steps x per-step scripts {ok, ok lasting 250 ms, fail, met precondition + 250 ms" +
+		map[bool]string{true: ", fail lasting 250 ms, unmet precondition", false: ""}[thorough] +
+		"} x every spelling of one step's depends list (each order, each order with one entry repeated) x maxActiveRuns " + fmt.Sprint(maxActives) + " x continueOn {none, on every failing/skipped step with dependents}; PB(0)"
 }
